@@ -630,6 +630,45 @@ fn fam_norm_boundary(ctx: &CaseCtx, cov: &mut Cov) -> CaseOut {
     out.sample = n.map(|n| sample_of(&pc, n));
     out
 }
+/// One stream whose output exceeds 2^32 bytes (thorough tier only): a periodic text grown
+/// by copies at distances that are multiples of the period, so that every 32-bit counter
+/// of produced bytes / window positions would wrap. About 16 million symbols.
+fn fam_beyond_4gib(ctx: &CaseCtx, cov: &mut Cov) -> CaseOut {
+    let mut out = CaseOut::default();
+    let mut rng = ctx.rng();
+    let props = random_props(&mut rng);
+    let period = rng.range(3, 200) as usize;
+    let dict: u32 = *rng.pick(&[4096u32, 1 << 16, 1 << 20]);
+    let target: u64 = (1u64 << 32) + rng.range(1, 1 << 20);
+    let mut prog: Vec<Sym> = Vec::with_capacity(17_000_000);
+    let pattern = rng.bytes(period);
+    for &b in &pattern {
+        prog.push(Sym::Lit(b));
+    }
+    let mut n = period as u64;
+    while n < target {
+        let max_k = (n.min(dict as u64) / period as u64).max(1);
+        let dist = (rng.range(1, max_k) * period as u64) as u32;
+        if rng.chance(1, 50) {
+            // a literal that continues the period (coded against its match byte after a copy)
+            prog.push(Sym::Lit(pattern[(n % period as u64) as usize]));
+            n += 1;
+        } else {
+            let len = if rng.chance(7, 8) { 273 } else { rng.range(2, 273) as u32 };
+            let len = (len as u64).min(target - n).max(2) as u32;
+            prog.push(Sym::Match { dist, len });
+            n += len as u64;
+        }
+    }
+    let term = *rng.pick(&[Term::Marker, Term::HeaderSize]);
+    let pc = PositiveCase { props, prog: &prog, term, dict, reader: ReaderKind::Slice, max_dist: dict as u64 };
+    let n = check_positive(&pc, "beyond_4gib", &mut out, cov, ctx, false);
+    if let Some(n) = n {
+        cov.max("output_bytes_of_one_stream", n as u64);
+    }
+    out.sample = n.map(|n| sample_of(&pc, n));
+    out
+}
 
 fn floors(tier: Tier, cov: &Cov) -> Vec<String> {
     let mut miss = Vec::new();
@@ -691,7 +730,7 @@ pub fn monitor(tier: Tier) -> Monitor {
     Monitor {
         id: "C01",
         level: "exploration",
-        rule: "cases = symbol programs (enumerated corner programs for all 84 state x kind cells; programs CONSTRUCTED by a search on the reference encoder so that the range register is exactly 2^24 - 1 / 2^24 / 2^24 + 1 right after a direct-bit halving - the threshold of the normalisation test - with all-ones direct bits; one steered program per lc/lp/pb setting; seeded random programs; wrap programs with output >> window; liblzma-encoded streams; far-distance programs) encoded by the independent reference encoder and decoded by lzma-rs (one-shot with 5 option shapes, raw decoder); non-trivial = the program contains at least one copy symbol and lzma-rs decoded >= 1 symbol (hook); distinct = by hash of (file bytes, termination style, declared dict)",
+        rule: "cases = symbol programs (thorough tier: one stream whose output exceeds 2^32 bytes; enumerated corner programs for all 84 state x kind cells; programs CONSTRUCTED by a search on the reference encoder so that the range register is exactly 2^24 - 1 / 2^24 / 2^24 + 1 right after a direct-bit halving - the threshold of the normalisation test - with all-ones direct bits; one steered program per lc/lp/pb setting; seeded random programs; wrap programs with output >> window; liblzma-encoded streams; far-distance programs) encoded by the independent reference encoder and decoded by lzma-rs (one-shot with 5 option shapes, raw decoder); non-trivial = the program contains at least one copy symbol and lzma-rs decoded >= 1 symbol (hook); distinct = by hash of (file bytes, termination style, declared dict)",
         assumptions: vec![
             "ground truth is interpret(program): plain copying in an unbounded Vec".into(),
             "the reference encoder is cross-validated against system liblzma 5.4.x at the start of every run (self-check) and per case when lc+lp<=4".into(),
@@ -705,6 +744,7 @@ pub fn monitor(tier: Tier) -> Monitor {
             Family { name: "random", count: tier.pick(30_000, 1_500_000), priority: false, enumerated: false, run: fam_random },
             Family { name: "liblzma", count: tier.pick(1500, 40_000), priority: false, enumerated: false, run: fam_liblzma },
             Family { name: "norm_boundary", count: tier.pick(24, 600), priority: false, enumerated: false, run: fam_norm_boundary },
+            Family { name: "beyond_4gib", count: tier.pick(0, 1), priority: true, enumerated: false, run: fam_beyond_4gib },
             Family { name: "far", count: tier.pick(3, 10), priority: false, enumerated: false, run: fam_far },
         ],
         label: std_label_c01,
